@@ -335,3 +335,93 @@ func flipCase(s string) string {
 	}
 	return string(b)
 }
+
+// --- sequences of edits, each followed by an encoding ---------------------------------
+
+type c19Step struct {
+	Kind int    `json:"kind"` // 0 in-place element assignment, 1 in-place case flip, 2 replace the slice, 3 append, 4 delete, 5 put the original names back
+	Idx  int    `json:"idx"`
+	Name string `json:"name"`
+}
+
+type c19Seq struct {
+	Wire  obs.Hex   `json:"wire"`
+	Steps []c19Step `json:"steps"`
+}
+
+var c19seq = newChk("C19", "edit-sequences",
+	"a label set parsed from generated (compressed) bytes, then 2..5 edits of its exported name list (in-place element assignment, case-only change, slice replacement, append, delete, restoring the original names) with an encoding after EVERY edit: each encoding must decode (independent reader) to exactly the names the set holds at that moment, and Length() must agree; non-trivial = ≥2 edits that change the list; distinct by case hash",
+	func(rec *obs.Rec, c c19Seq) *obs.Fail {
+		l, err := rfc1035label.FromBytes(append([]byte{}, c.Wire...))
+		if err != nil {
+			return nil
+		}
+		orig := append([]string{}, l.Labels...)
+		cur := append([]string{}, orig...)
+		changes := 0
+		for si, st := range c.Steps {
+			n := len(cur)
+			idx := 0
+			if n > 0 {
+				idx = st.Idx % n
+			}
+			before := append([]string{}, cur...)
+			switch st.Kind {
+			case 0:
+				if n > 0 {
+					l.Labels[idx] = st.Name
+					cur[idx] = st.Name
+				}
+			case 1:
+				if n > 0 {
+					l.Labels[idx] = flipCase(l.Labels[idx])
+					cur[idx] = flipCase(cur[idx])
+				}
+			case 2:
+				if n > 0 {
+					cur[idx] = st.Name
+				}
+				l.Labels = append([]string{}, cur...)
+			case 3:
+				l.Labels = append(l.Labels, st.Name)
+				cur = append(cur, st.Name)
+			case 4:
+				if n > 0 {
+					l.Labels = append(l.Labels[:idx:idx], l.Labels[idx+1:]...)
+					cur = append(cur[:idx:idx], cur[idx+1:]...)
+				}
+			case 5:
+				l.Labels = append([]string{}, orig...)
+				cur = append([]string{}, orig...)
+			}
+			if !namesEq(before, cur) {
+				changes++
+			}
+			out := l.ToBytes()
+			back, class, reasons := reflabel.DecodeReasons(out)
+			okClass := class == reflabel.Strict || (class == reflabel.Grey && len(reasons) == 1 && reasons[0] == reflabel.GreyLongName)
+			if !okClass || !namesEq(back, cur) {
+				return obs.Failf("C19/edit-sequence/not-encoded", fmt.Sprintf("after edit %d (kind %d): encoding of %q", si+1, st.Kind, cur), "%x which reads as %q (%s)", clipb(out), back, class)
+			}
+			if l.Length() != len(out) {
+				return obs.Failf("C19/edit-sequence/length", fmt.Sprint(len(out)), "%d after edit %d", l.Length(), si+1)
+			}
+		}
+		rec.Class(fmt.Sprintf("%d edits", len(c.Steps)))
+		if changes >= 2 {
+			rec.NonTrivial(obs.HashJSON(c), func() any {
+				return map[string]any{"wire": hx(clipb(c.Wire)), "parsed": orig, "steps": c.Steps}
+			})
+		}
+		return nil
+	})
+
+func TestC19_EditSequencesRapid(t *testing.T) {
+	c19seq.rapidCheck(t, rapid.Custom(func(rt *rapid.T) c19Seq {
+		c := c19Seq{Wire: gen.LabelWireNoDots(false).Draw(rt, "wire")}
+		for k := rapid.IntRange(2, 5).Draw(rt, "nsteps"); k > 0; k-- {
+			c.Steps = append(c.Steps, c19Step{Kind: rapid.SampledFrom([]int{0, 0, 1, 2, 3, 4, 5}).Draw(rt, "kind"), Idx: rapid.IntRange(0, 7).Draw(rt, "idx"), Name: gen.Name().Draw(rt, "name")})
+		}
+		return c
+	}))
+}
